@@ -1473,7 +1473,8 @@ def c15_top_text(moltypes, counts):
         lines.append(f"{t} {mass} 0.0 {'V' if t == 'V' else 'A'} {sig} {0.0 if t == 'V' else 3.5}")
     lines.append("")
     for molname, residues in moltypes.items():
-        atoms, sect = [], {k: [] for k in ("bonds", "constraints", "angles", "dihedrals", "virtual_sites2", "virtual_sites3", "virtual_sites4", "virtual_sitesn")}
+        atoms, sect = [], {k: [] for k in ("bonds", "constraints", "angles", "dihedrals", "virtual_sites2", "virtual_sites3", "virtual_sites4", "virtual_sitesn",
+                                           "virtual_sites1")}
         idx, anchors = 1, []
         for resid, r in enumerate(residues, start=1):
             where = {}
@@ -1492,7 +1493,9 @@ def c15_top_text(moltypes, counts):
             for a, b, c, dd, ph in r["impropers"]:
                 sect["dihedrals"].append(f"{where[a]} {where[b]} {where[c]} {where[dd]} 2 {ph} 50")
             for section, site, defs, funct, params in r["vs"]:
-                if section == "virtual_sitesn":
+                if section == "virtual_sitesn" and int(funct) == 3:       # centre of weights: 'site 3 atom weight atom weight ...' (GROMACS manual, topology file table)
+                    sect[section].append(f"{where[site]} 3 " + " ".join(f"{where[x]} {w}" for x, w in zip(defs, params)))
+                elif section == "virtual_sitesn":
                     sect[section].append(f"{where[site]} {funct} " + " ".join(str(where[x]) for x in defs))
                 else:
                     sect[section].append(f"{where[site]} " + " ".join(str(where[x]) for x in defs) + f" {funct} " + " ".join(str(x) for x in params))
@@ -1520,12 +1523,19 @@ def gromacs_vs(section, funct, params, x, masses):
             w = np.ones(len(x))
         elif f == 2:                                 # centre of mass
             w = np.array(masses, float)
+        elif f == 3 and len(params) == len(x):       # centre of weights, one explicit weight per defining atom
+            w = np.array(params, float)
         else:
             raise ValueError("COW needs explicit weights")
         return (w[:, None] * x).sum(axis=0) / w.sum()
+    if section == "virtual_sites1" and f == 1:        # the site sits on its single defining atom
+        return np.array(x[0], float)
     if section == "virtual_sites2" and f == 1:
         a, = params
         return (1 - a) * x[0] + a * x[1]
+    if section == "virtual_sites2" and f == 2:        # 2fd: at the fixed distance a (nm) from i along i -> j
+        a, = params
+        return x[0] + a * _unit(x[1] - x[0])
     if section == "virtual_sites3":
         xi, xj, xk = x
         rij, rik, rjk = xj - xi, xk - xi, xk - xj
@@ -1606,6 +1616,7 @@ def c15_world(job):
     from pathlib import Path
     bads = []
     calls = []
+    st = dict(optimised=0, not_optimised=0, user_templates=0, user_sizes=0, sites=0, iso_pairs=0, other_pairs=0)       # what was actually compared (measured)
     real_opt = gt.optimize_geometry
     if getattr(real_opt, "_bounded_wrapper", False):
         real_opt = real_opt._real
@@ -1644,7 +1655,9 @@ def c15_world(job):
                 same = set(mol.templates) == set(templates)
                 if not same:
                     bads.append(("c15-templates-not-shared", "molecules carry different template tables"))
-        user_templates = {t[0]: t for t in (user or {}).get("templates", [])}
+        user_templates = {}
+        for t_ in (user or {}).get("templates", []):
+            user_templates.setdefault(t_[0], []).append(t_)
         user_volumes = dict((user or {}).get("volumes", []))
         for (m, n, r, key) in residues:
             where = f"molecule {m} residue {r['name']} (node {n})"
@@ -1668,12 +1681,18 @@ def c15_world(job):
                 bads.append(("c15-size-not-positive", f"{where}: size {size}"))
             # virtual sites: where GROMACS puts them, from the template's own defining atoms
             masses = {a[0]: a[2] for a in r["atoms"]}
-            from_user = r["name"] in user_templates and c15_user_matches(user_templates[r["name"]], r)
+            supplied = [t_ for t_ in user_templates.get(r["name"], []) if c15_user_matches(t_, r)]
+            from_user = bool(supplied)
             if not from_user:
                 for section, site, defs, funct, params in r["vs"]:
+                    st["sites"] += 1
                     want = gromacs_vs(section, funct, params, [pos[x] for x in defs], [masses[x] for x in defs])
                     if np.linalg.norm(pos[site] - want) > 1e-6:
                         key_ = "c15-vsn-com-as-cog" if (section == "virtual_sitesn" and int(funct) == 2) else "c15-virtual-site-position"
+                        if section == "virtual_sitesn" and int(funct) == 3:
+                            key_ = "c15-vsn-cow-weights-unsupported"          # 'site 3 atom weight atom weight ...': the weights are not read as weights
+                        elif section == "virtual_sites1":
+                            key_ = "c15-virtual-sites1-not-constructed"
                         bads.append((key_, f"{where}: {section} funct {funct} {params} site {site} from {defs}: template has it at {np.round(pos[site], 6)}, "
                                            f"GROMACS constructs {np.round(want, 6)} (defining atoms {[list(np.round(pos[x], 6)) for x in defs]}, masses {[masses[x] for x in defs]})"))
             # optimisation verdict
@@ -1683,6 +1702,10 @@ def c15_world(job):
                     c0 = np.mean([coords[x] for x in names], axis=0)
                     if all(np.linalg.norm(coords[x] - c0 - pos[x]) < 1e-9 for x in names):
                         verdict = ok
+            st["optimised"] += int(verdict is True)
+            st["not_optimised"] += int(verdict is False)
+            st["user_templates"] += int(from_user)
+            st["user_sizes"] += int(r["name"] in user_volumes)
             if verdict:
                 tol_len, tol_ang = 0.05, 5.0        # minimizer.optimize_geometry: tolerance bonds/constraints 0.05 nm, angles/dihedrals 5 degrees
                 for a, b, l in r["bonds"] + r["constraints"]:
@@ -1703,7 +1726,7 @@ def c15_world(job):
                                      f"{where}: reported optimised, improper {a}-{b}-{c}-{dd} is {got:.3f} deg (GROMACS sign convention), target {ph} +- {tol_ang}"))
             # user supplied values
             if from_user:
-                _rn, uatoms, _ub, with_bonds = user_templates[r["name"]]
+                _rn, uatoms, _ub, with_bonds = supplied[0]
                 upos = {an: np.array(p, float) for an, _at, p in uatoms}
                 ucog = np.mean(list(upos.values()), axis=0)
                 if verdict is not None:
@@ -1715,7 +1738,11 @@ def c15_world(job):
                     bads.append((key_, f"{where}: template in use {dict((x, list(np.round(pos[x], 5))) for x in names)} is not the supplied one (centred) "
                                        f"{dict((x, list(np.round(upos[x] - ucog, 5))) for x in names)}"))
             if r["name"] in user_volumes and size is not None and size != user_volumes[r["name"]]:
-                bads.append(("c15-user-size-not-used", f"{where}: size in use {size}, the build file says {user_volumes[r['name']]}"))
+                key_ = "c15-user-size-not-used"
+                if len(user_templates.get(r["name"], [])) >= 2:
+                    key_ = "c15-user-size-lost-two-templates-one-name"      # two [ template ] blocks carry this residue name (different structures) next to [ volumes ] <name>
+                bads.append((key_, f"{where}: size in use {size}, the build file says {user_volumes[r['name']]}"
+                                   + (f" ({len(user_templates[r['name']])} templates named {r['name']} in the build file)" if key_ != "c15-user-size-not-used" else "")))
         # sharing
         for i in range(len(residues)):
             for j in range(i + 1, len(residues)):
@@ -1724,6 +1751,7 @@ def c15_world(job):
                     continue
                 names1, names2 = sorted(a[0] for a in r1["atoms"]), sorted(a[0] for a in r2["atoms"])
                 iso = nx.is_isomorphic(c15_labelled_graph(r1), c15_labelled_graph(r2), node_match=lambda x, y: x["atomname"] == y["atomname"])
+                st["iso_pairs" if iso else "other_pairs"] += 1
                 if iso and (k1 != k2 or top.volumes.get(k1) != top.volumes.get(k2)):
                     bads.append(("c15-isomorphic-residues-not-shared", f"residues {r1['name']} and {r2['name']} (positions {i}, {j}) have isomorphic labelled graphs "
                                                                       f"but templates {k1} / {k2}, sizes {top.volumes.get(k1)} / {top.volumes.get(k2)}"))
@@ -1742,6 +1770,11 @@ def c15_world(job):
         key_ = "c15-exception:" + type(e).__name__
         if isinstance(e, UnboundLocalError) and "resname" in str(e) and calls and not calls[-1][2]:
             key_ = "c15-unoptimised-first-template-crash"      # the give-up branch after failed optimisations names a variable that is not bound yet
+        all_vs = [(s[0], int(s[3])) for rs_ in job["moltypes"].values() for r_ in rs_ for s in r_["vs"]]
+        if isinstance(e, KeyError) and "virtual_sites" in str(e) and any(str(sec) in str(e) and f"'{f}'" in str(e) for sec, f in all_vs):
+            key_ = "c15-virtual-site-kind-unsupported"         # a (section, function type) of the topology the template builder has no construction for
+        elif ("virtual_sitesn", 3) in all_vs and "virtual_sitesn" in str(e):
+            key_ = "c15-vsn-cow-weights-unsupported"           # the topology reader cannot read 'atom weight' pairs
         bads.append((key_, f"{type(e).__name__}: {e} at {os.path.basename(tb.filename)}:{tb.lineno}"))
     finally:
         gt.optimize_geometry = real_opt
@@ -1750,7 +1783,7 @@ def c15_world(job):
         if k not in seen:
             seen.add(k)
             out.append((k, t))
-    return job.get("nontrivial", True), out
+    return job.get("nontrivial", True), out, st
 
 
 def c15_user_matches(utemplate, r):
@@ -1762,7 +1795,10 @@ def c15_user_matches(utemplate, r):
     for an, _at, _p in uatoms:
         ug.add_node(an, atomname=an)
     ug.add_edges_from(ubonds)
-    return nx.is_isomorphic(ug, c15_labelled_graph(r), node_match=lambda x, y: x["atomname"] == y["atomname"])
+    # the [ bonds ] of a template are compared with the residue's bonds and constraints: a virtual-site construction is not a bond
+    # (for residues without virtual sites - every user template of the quick tier - this is c15_labelled_graph)
+    rg = c15_labelled_graph(dict(r, vs=[]))
+    return nx.is_isomorphic(ug, rg, node_match=lambda x, y: x["atomname"] == y["atomname"])
 
 
 def c15_shapes():
@@ -1828,12 +1864,213 @@ def c15_vs_residues(ctx):
     return out
 
 
+# ---- thorough tier: generated residues, virtual-site sweeps, sharing pairs, build-file combinations ------------------------------------
+
+C15_KINDS = (("P", 72.0), ("Q", 36.0), ("T", 12.0))
+
+
+def c15_embed(n, edges, seed):
+    """seeded 3-d conformation of a graph: bonded atoms relaxed towards 0.3 nm, the others pushed to >= 0.28 nm.  Targets MEASURED on one real conformation
+    can all be met together"""
+    rs = np.random.RandomState(seed)
+    x = rs.uniform(-0.3, 0.3, size=(n, 3))
+    eset = {frozenset(e) for e in edges}
+    for _ in range(400):
+        for i in range(n):
+            for j in range(i + 1, n):
+                dv = x[j] - x[i]
+                dist = max(np.linalg.norm(dv), 1e-6)
+                if frozenset((i, j)) in eset:
+                    shift = 0.25 * (dist - 0.3) * dv / dist
+                elif dist < 0.28:
+                    shift = 0.25 * (dist - 0.28) * dv / dist
+                else:
+                    continue
+                x[i] += shift
+                x[j] -= shift
+    return x
+
+
+def c15_generated_residue(name, n, edges, seed, names="abcde", uniform=False):
+    """a residue on the graph (n, edges): bond / constraint lengths, up to 4 angles and (4+ atoms, every other seed) one type-2 improper measured on c15_embed;
+    uniform=True: every bond 0.3 nm and nothing else (for sharing worlds, where isomorphic residues must also have equal targets)"""
+    atoms = [(names[i], C15_KINDS[(i + seed) % 3][0], C15_KINDS[(i + seed) % 3][1]) for i in range(n)]
+    if uniform:
+        return Res(name, atoms, bonds=[(names[a], names[b], 0.3) for a, b in edges])
+    x = c15_embed(n, edges, seed)
+    bonds, constraints, angles, impropers = [], [], [], []
+    for k, (a, b) in enumerate(edges):
+        item = (names[a], names[b], round(float(np.linalg.norm(x[a] - x[b])), 3))
+        (constraints if (k + seed) % 4 == 3 else bonds).append(item)
+    nbrs = {i: sorted({b if a == i else a for a, b in edges if i in (a, b)}) for i in range(n)}
+    for b in range(n):
+        for a, c in itertools.combinations(nbrs[b], 2):
+            if len(angles) < 4:
+                angles.append((names[a], names[b], names[c], round(_angle_deg(x[a], x[b], x[c]), 1)))
+    if n >= 4 and seed % 2 == 0:
+        for c in range(n):
+            if len(nbrs[c]) >= 3 and not impropers:
+                i, j, k = nbrs[c][:3]
+                phi = _dihedral_deg(x[c], x[i], x[j], x[k])
+                if 15 < abs(phi) < 165:
+                    impropers.append((names[c], names[i], names[j], names[k], round(phi, 1)))
+    return Res(name, atoms, bonds=bonds, constraints=constraints, angles=angles, impropers=impropers)
+
+
+def c15_vs_kinds():
+    """(label, section, function type, number of defining atoms, parameter sets); for virtual_sitesn the 'parameters' are the weights of funct 3 and
+    empty otherwise"""
+    out = [("vs1", "virtual_sites1", 1, 1, [[]]),
+           ("vs2", "virtual_sites2", 1, 2, [[0.5], [0.0], [1.0], [-0.3], [1.4]]),
+           ("vs2fd", "virtual_sites2", 2, 2, [[0.1], [-0.05], [0.3]]),
+           ("vs3", "virtual_sites3", 1, 3, [[0.3, 0.3], [0.0, 0.0], [1.0, 0.0], [-0.2, 0.7], [0.5, 0.5]]),
+           ("vs3fd", "virtual_sites3", 2, 3, [[0.5, 0.1], [0.2, -0.1], [1.0, 0.25], [0.0, 0.05]]),
+           ("vs3fad", "virtual_sites3", 3, 3, [[120, 0.1], [45, 0.2], [90, 0.15], [10, 0.05]]),
+           ("vs3out", "virtual_sites3", 4, 3, [[0.2, 0.3, 1.5], [-0.3, 0.4, -2.0], [0.0, 0.0, 3.0], [1.0, 1.0, 0.5]]),
+           ("vs4fdn", "virtual_sites4", 2, 4, [[0.5, 0.5, 0.1], [0.8, 1.2, -0.15], [1.0, 1.0, 0.2], [0.3, 2.0, 0.05]])]
+    for ndef in (1, 2, 3, 4):
+        out.append((f"vsn-cog-{ndef}", "virtual_sitesn", 1, ndef, [[]]))
+        out.append((f"vsn-com-{ndef}", "virtual_sitesn", 2, ndef, [[]]))
+        out.append((f"vsn-cow-{ndef}", "virtual_sitesn", 3, ndef, [[1] * ndef, [1, 2, 3, 4][:ndef], [0.5, 1.25, 2.0, 0.75][:ndef]]))
+    return out
+
+
+C15_VS_BASES = (("chain", 4, ((0, 1), (1, 2), (2, 3))), ("star", 4, ((0, 1), (0, 2), (0, 3))), ("ring", 4, ((0, 1), (1, 2), (2, 3), (0, 3))),
+                ("branched", 5, ((0, 1), (1, 2), (1, 3), (3, 4))))
+
+
+def c15_with_site(base, sites, site_first, equal_masses=False):
+    """base residue + virtual sites [(section, site name, defining atoms, funct, params)]; the site atoms are listed before or after the real atoms"""
+    atoms = [(an, "P", 72.0) if equal_masses else (an, at, m) for an, at, m in base["atoms"]]
+    vatoms = [(s[1], "V", 0.0) for s in sites]
+    r = dict(base)
+    r["atoms"] = vatoms + atoms if site_first else atoms + vatoms
+    r["vs"] = list(sites)
+    return r
+
+
+def c15_user_template_for(r, seed, resname=None):
+    """a build-file template for residue r: arbitrary (seeded) positions far from the origin, the residue's own bonds and constraints under [ bonds ]"""
+    rs = np.random.RandomState(seed)
+    centre = rs.uniform(-5, 5, size=3)
+    atoms = [(an, at, tuple(round(float(v), 4) for v in centre + rs.uniform(-0.4, 0.4, size=3))) for an, at, _m in r["atoms"]]
+    bonds = [(a, b) for a, b, _l in r["bonds"] + r["constraints"]]
+    return (resname or r["name"], atoms, bonds, True)
+
+
+def c15_thorough_jobs(ctx, d, add):
+    """add(moltypes, counts, user=..., what=..., skip_filter=..., seed=..., family=...)"""
+    tail = Res("TL", [("x", "P", 72.0), ("y", "Q", 36.0)], bonds=[("x", "y", 0.3)])
+    shapes = [s for s in c11_all_shapes(5) if s[0] >= 2]
+    # (T1) every connected graph on 2-5 atoms as a residue with measured (jointly satisfiable) targets x 3 conformations x 2 initial layouts, alone and inside a chain
+    for si, (n, edges) in enumerate(shapes):
+        for conf in range(3):
+            r = c15_generated_residue(f"G{si}", n, edges, seed=_seed_of("c15-conf", si, conf) % 1000)
+            for layout in range(2):
+                add({"M": [r]}, [("M", 1)], what=f"generated residue on graph {n}:{list(edges)} conformation {conf}, alone", seed=("t1", si, conf, layout), family="structures",
+                    nontrivial=n >= 3)
+                add({"M": [tail, r, r, tail]}, [("M", 2)], what=f"generated residue on graph {n}:{list(edges)} conformation {conf}, repeated in a chain", seed=("t1c", si, conf, layout),
+                    family="structures")
+    # (T2) every virtual-site kind x parameter set x base structure x order of the defining atoms x site listed first / last
+    for label, section, funct, ndef, psets in c15_vs_kinds():
+        for pi, params in enumerate(psets):
+            for bi, (bname, n, edges) in enumerate(C15_VS_BASES):
+                base = c15_generated_residue("VS", n, edges, seed=11 + bi + 3 * pi)
+                real = [a[0] for a in base["atoms"]]
+                for oi, order in enumerate((real, real[1:] + real[:1])):
+                    for site_first in (False, True):
+                        for eq in ((False, True) if (section == "virtual_sitesn" and funct == 2) else (False,)):
+                            r = c15_with_site(base, [(section, "v", list(order[:ndef]), funct, list(params))], site_first, equal_masses=eq)
+                            r["name"] = label.upper().replace("-", "")[:5]
+                            mol = [r, tail] if (oi + bi) % 2 == 0 else [tail, r, tail]
+                            add({"M": mol}, [("M", 1)], what=f"virtual site {section} funct {funct} {params} from {order[:ndef]} on a {bname}" + (" (equal masses)" if eq else ""),
+                                seed=("t2", label, pi, bi, oi, site_first), family="virtual sites")
+    # several sites of different kinds in one residue (each defined from real atoms only)
+    kinds = [k for k in c15_vs_kinds() if k[0] not in ("vs1", "vs2fd") and not k[0].startswith("vsn-cow") and not k[0].startswith("vsn-com")]
+    for mi in range(40):
+        rs = np.random.RandomState(_seed_of("c15-multi", ctx.seed, mi))
+        bname, n, edges = C15_VS_BASES[int(rs.randint(len(C15_VS_BASES)))]
+        base = c15_generated_residue("VM", n, edges, seed=100 + mi)
+        real = [a[0] for a in base["atoms"]]
+        sites = []
+        for k in range(int(rs.randint(2, 4))):
+            label, section, funct, ndef, psets = kinds[int(rs.randint(len(kinds)))]
+            order = [real[i] for i in rs.permutation(len(real))]
+            sites.append((section, "vwu"[k], order[:ndef], funct, list(psets[int(rs.randint(len(psets)))])))
+        r = c15_with_site(base, sites, bool(rs.randint(2)))
+        add({"M": [r, tail]}, [("M", 1)], what=f"{len(sites)} virtual sites {[(s[0], s[3]) for s in sites]} on a {bname}", seed=("t2m", mi), family="virtual sites")
+    # (T3) pairs of residues: same labelled graph (atoms listed backwards), one atom renamed, atom names permuted over the graph, same atom names on another graph;
+    #      in one molecule, across two / three molecule types, under different residue names; both filter settings
+    by_size = {}
+    for s in shapes:
+        by_size.setdefault((s[0], len(s[1])), []).append(s)
+    picked = [s for k, s in enumerate(s for s in shapes if s[0] >= 3) if s[0] <= 4 or k % 2 == 0]
+    for si, (n, edges) in enumerate(picked):
+        rs = np.random.RandomState(_seed_of("c15-pair", ctx.seed, si))
+        base = c15_generated_residue("R", n, edges, seed=si, uniform=True)
+        names = "abcde"[:n]
+        backwards = dict(base, atoms=base["atoms"][::-1], bonds=[(b, a, l) for a, b, l in base["bonds"][::-1]])
+        renamed = c15_generated_residue("R", n, edges, seed=si, names=names[:-1] + "z", uniform=True)
+        perm = "".join(names[i] for i in rs.permutation(n))
+        permuted = c15_generated_residue("R", n, edges, seed=si, names=perm, uniform=True)
+        others = [s for s in by_size[(n, len(edges))] if s != (n, edges)]
+        rewired = c15_generated_residue("R", n, others[si % len(others)][1], seed=si, uniform=True) if others else None
+        variants = [("atoms listed backwards", backwards), ("one atom renamed", renamed), (f"atom names permuted over the graph ({names} -> {perm})", permuted)]
+        if rewired:
+            variants.append(("same atom names on another graph with as many bonds", rewired))
+        for vname, var in variants:
+            other_name = dict(var, name="T")
+            placements = [("one molecule", {"M": [base, var, tail]}, [("M", 1)]),
+                          ("two molecule types", {"M": [base, tail], "N": [var, tail]}, [("N", 1), ("M", 1)]),
+                          ("three molecule types, several copies", {"M": [base], "N": [tail, var], "O": [var, base]}, [("O", 2), ("M", 1), ("N", 2)]),
+                          ("under another residue name", {"M": [base, other_name, tail], "N": [other_name]}, [("M", 1), ("N", 1)])]
+            for pname, moltypes, counts in placements:
+                for sf in (False, True):
+                    add(moltypes, counts, what=f"pair on graph {n}:{list(edges)}: {vname}; {pname}" + ("; skip_filter" if sf else ""), skip_filter=sf,
+                        seed=("t3", si, vname, pname), family="pairs")
+    # (T4) build files: for residue R and for the tail independently {nothing, template, volume, both} x section order x 7 structures of R x 2 seeds
+    one = Res("R", [("a", "P", 72.0)])
+    structures = [one, c15_generated_residue("R", 2, ((0, 1),), 1), c15_generated_residue("R", 3, ((0, 1), (1, 2)), 2), c15_generated_residue("R", 3, ((0, 1), (1, 2), (0, 2)), 3),
+                  c15_generated_residue("R", 4, ((0, 1), (0, 2), (0, 3)), 4), c15_generated_residue("R", 5, ((0, 1), (1, 2), (2, 3), (3, 4), (0, 4)), 5)]
+    vsbase = c15_generated_residue("R", 4, ((0, 1), (1, 2), (2, 3)), 6)
+    structures.append(c15_with_site(vsbase, [("virtual_sites3", "v", ["a", "b", "c"], 1, [0.3, 0.3])], False))
+    combos = [(False, False), (True, False), (False, True), (True, True)]
+    for ri, r in enumerate(structures):
+        for (rt, rv) in combos:
+            for (tt, tv) in combos:
+                for vf in (False, True):
+                    for sd in range(2):
+                        if not (rt or rv or tt or tv) and (vf or sd):
+                            continue
+                        templates = ([c15_user_template_for(r, 50 + ri + sd)] if rt else []) + ([c15_user_template_for(tail, 70 + ri + sd)] if tt else [])
+                        volumes = ([("R", round(0.41 + 0.05 * ri + 0.01 * sd, 3))] if rv else []) + ([("TL", round(0.23 + 0.02 * ri, 3))] if tv else [])
+                        add({"M": [r, tail, r]}, [("M", 1 + sd)], user=dict(templates=templates, volumes=volumes, volumes_first=vf),
+                            what=f"build file for R ({len(r['atoms'])} atoms): template {rt}, volume {rv}; for TL: template {tt}, volume {tv}", seed=("t4", ri, sd), family="build files")
+    # two residues called R with different structure: templates for the first / the second / both, with and without a volume for R, molecule order both ways
+    U = lambda n, edges, names="abcde": c15_generated_residue("R", n, edges, seed=0, names=names, uniform=True)      # noqa: E731
+    twins = [(U(2, ((0, 1),)), U(3, ((0, 1), (1, 2)))),                                  # ab / abc
+             (U(3, ((0, 1), (1, 2))), U(3, ((0, 1), (1, 2), (0, 2)))),                   # chain abc / ring abc: same atom names
+             (U(4, ((0, 1), (0, 2), (0, 3))), U(4, ((0, 1), (1, 2), (2, 3)))),           # star abcd / chain abcd
+             (one, U(2, ((0, 1),))),                                                     # a / ab
+             (U(3, ((0, 1), (1, 2))), U(3, ((0, 1), (1, 2)), names="abd"))]              # abc / abd
+    for ti, (r1, r2) in enumerate(twins):
+        for which in ((True, False), (False, True), (True, True)):
+            for vol in (False, True):
+                for order in (0, 1):
+                    for vf in (False, True):
+                        templates = ([c15_user_template_for(r1, 90 + ti)] if which[0] else []) + ([c15_user_template_for(r2, 95 + ti)] if which[1] else [])
+                        counts = [("M", 1), ("N", 2)] if order == 0 else [("N", 1), ("M", 1)]
+                        add({"M": [r1, tail], "N": [tail, r2, r2]}, counts, user=dict(templates=templates, volumes=[("R", 0.57)] if vol else [], volumes_first=vf),
+                            what=f"two different residues named R ({len(r1['atoms'])} / {len(r2['atoms'])} atoms): template for first {which[0]}, second {which[1]}, volume for R {vol}",
+                            seed=("t4t", ti), family="build files")
+
+
 def c15_jobs(ctx, d):
     jobs = []
 
-    def add(moltypes, counts, user=None, nontrivial=True, what="", skip_filter=False, seed=0):
+    def add(moltypes, counts, user=None, nontrivial=True, what="", skip_filter=False, seed=0, family="fixed"):
         jobs.append(dict(moltypes=moltypes, counts=counts, user=user, nontrivial=nontrivial, what=what, dir=d, id=len(jobs), skip_filter=skip_filter,
-                         seed=_seed_of("c15", ctx.seed, seed)))
+                         seed=_seed_of("c15", ctx.seed, seed), family=family))
     shapes = c15_shapes()
     tail = Res("TL", [("x", "P", 72.0), ("y", "Q", 36.0)], bonds=[("x", "y", 0.3)])
     # (1) every shape alone in a molecule, and between two copies of a two-atom residue
@@ -1914,28 +2151,53 @@ def c15_jobs(ctx, d):
             what="template + size for R where two molecule types have different residues R")
         add({"M": [one, tail]}, [("M", 1)], user=dict(templates=[t_one_emptybonds], volumes=[], volumes_first=vf), what="one-atom template, empty bonds section")
         add({"M": [one, tail]}, [("M", 1)], user=dict(templates=[t_one_nobonds], volumes=[("TL", 0.3)], volumes_first=vf), what="one-atom template without bonds section")
+    if ctx.thorough:
+        c15_thorough_jobs(ctx, d, add)
     return jobs
+
+
+def c15_thorough_bound_text(families):
+    nk = sum(len(k[4]) for k in c15_vs_kinds())
+    return (f".  THOROUGH adds {sum(v for k, v in families.items() if k != 'fixed')} topologies.  STRUCTURES ({families.get('structures', 0)}): every connected graph on 2-5 atoms (30: chains, "
+            "stars, all branched trees, rings 3-5, fused and bridged rings up to K5) as a residue whose bond / constraint lengths, up to 4 angles and (4+ atoms) one type-2 improper are "
+            "measured on a seeded 3-d conformation (so the targets can be met together) x 3 conformations x 2 seeds of the random initial layout, alone and repeated inside a chain.  "
+            f"VIRTUAL SITES ({families.get('virtual sites', 0)}): virtual_sites1; virtual_sites2 funct 1, 2; virtual_sites3 funct 1-4; virtual_sites4 funct 2; virtual_sitesn funct 1, 2, 3 "
+            f"with 1-4 defining atoms ({nk} kind x parameter / weight sets, funct 2 with unequal and equal masses) x 4 base structures (chain, star, ring, branched) x 2 orders of the "
+            "defining atoms x site listed before / after the real atoms, next to one or between two other residues; 40 seeded residues with 2-3 sites of different kinds.  "
+            f"PAIRS ({families.get('pairs', 0)}): 19 graphs on 3-5 atoms x second residue {{same labelled graph with atoms listed backwards, one atom renamed, atom names permuted over the "
+            "graph, same atom names on another graph with as many bonds}} x {one molecule, two molecule types, three molecule types with 1-2 copies, under another residue name} x "
+            f"skip_filter off / on.  BUILD FILES ({families.get('build files', 0)}): 7 structures of residue R (1-5 atoms, ring, star, with a virtual site) x for R and for the neighbour "
+            "residue independently {nothing, [ template ], [ volumes ], both} x section order x 2 seeds (positions far from the origin); 5 pairs of DIFFERENT residues both named R "
+            "(ab/abc, chain/ring abc, star/chain abcd, a/ab, abc/abd) x template for the first / second / both x volume for R or not x molecule order x section order")
 
 
 def run_c15(ctx, res):
     d = _scratch()
     try:
         jobs = c15_jobs(ctx, d)
-        out = _pool_map(c15_world, jobs, chunksize=1)
+        out = _pool_map(c15_world, jobs, chunksize=1 if not ctx.thorough else 4)
     finally:
         shutil.rmtree(d, ignore_errors=True)
-    classes = {}
-    for job, (nt, bads) in zip(jobs, out):
+    classes, families, totals, smallest = {}, {}, {}, {}
+    for job, (nt, bads, st) in zip(jobs, out):
+        for k, v in st.items():
+            totals[k] = totals.get(k, 0) + v
         res.evaluations += 1
         res.nontrivial += int(bool(nt))
+        families[job["family"]] = families.get(job["family"], 0) + 1
         desc = {"what": job["what"], "topology": c15_top_text(job["moltypes"], job["counts"]),
                 "build_file": c15_build_text(job["user"]) if job["user"] else None, "skip_filter": job["skip_filter"]}
         if not bads and nt and len(res.samples) < 3 and (job["user"] or "virtual" in job["what"]) and job["what"] not in {s["what"] for s in res.samples}:
             res.samples.append(desc)
         for bad in bads:
             classes[bad[0]] = classes.get(bad[0], 0) + 1
-            if len(res.violations) < 25 and bad[0] not in {v.finding_key for v in res.violations}:
+            if ctx.thorough:        # one Violation per class: the smallest violating input of the class
+                size = len(desc["topology"]) + len(desc["build_file"] or "")
+                if bad[0] not in smallest or size < smallest[bad[0]][0]:
+                    smallest[bad[0]] = (size, Violation("c15-templates", _short(f"{bad[1]}  [{job['what']}]", 900), inputs=desc, detail=bad[1], replayed=True, finding_key=bad[0]))
+            elif len(res.violations) < 25 and bad[0] not in {v.finding_key for v in res.violations}:
                 res.violations.append(Violation("c15-templates", _short(f"{bad[1]}  [{job['what']}]", 900), inputs=desc, detail=bad[1], replayed=True, finding_key=bad[0]))
+    res.violations += [v for _size, v in smallest.values()][:25]
     nvs = len(c15_vs_residues(ctx))
     res.bound = (f"{len(jobs)} topologies read from files and run through GenerateTemplates as gen_coords does: 13 residue shapes (1 atom, chains 2-5 with bonds/constraints/angles, "
                  f"rings 3-5, stars 4-5 with an improper, two with targets that cannot be met) alone and repeated; {nvs} virtual-site residues (virtual_sites2, virtual_sites3 funct 1-4, virtual_sites4 funct 2, "
@@ -1944,12 +2206,19 @@ def run_c15(ctx, res):
                  "atom names and bond count but differ in connectivity (chains abcd/dcab/acbd, abc/acb, stars, rings, triangle+tail); chiral centres with a type-2 improper of +-35.26 / +-120 "
                  f"degrees in 3 atom orders x {4 if not ctx.thorough else 12} seeds of the random initial layout; 16 build files with [ template ] / [ volumes ] in both orders "
                  "(template only, template + size, sizes only, two templates, residue name shared by different residues, one-atom templates with and without a bonds section)"
+                 + (c15_thorough_bound_text(families) if ctx.thorough else "")
+                 + (f".  Compared (residue instances over all worlds): {totals.get('optimised', 0)} templates reported optimised checked against their targets ({totals.get('not_optimised', 0)} reported "
+                    f"not optimised), {totals.get('sites', 0)} virtual sites against the GROMACS construction, {totals.get('user_templates', 0)} user templates and {totals.get('user_sizes', 0)} "
+                    f"user sizes against the build file, {totals.get('iso_pairs', 0)} isomorphic and {totals.get('other_pairs', 0)} non-isomorphic residue pairs for sharing" if ctx.thorough else "")
                  + (f".  Violation classes seen (worlds): {classes}" if classes else ""))
     res.rule = ("oracle: isomorphism of the written atom-name-labelled graphs decides sharing; GROMACS manual formulas decide virtual-site positions (from the template's own defining atoms); "
                 "the verdict of the last optimize_geometry call (recorded by a pass-through wrapper) decides whether the targets written in the topology must hold within 0.05 nm / 5 degrees; "
                 "non-trivial iff the residue has >= 3 atoms, a virtual site, a partner residue to share with or differ from, or a build file")
     res.exhaustive = True
-    res.assumptions.append("bounded: virtual_sitesn funct 3 (explicit weights) is not exercised: the topology reader has no representation for weights")
+    if ctx.thorough:
+        res.assumptions.append("bounded: virtual_sitesn funct 3 is written as GROMACS reads it ('site 3 atom weight atom weight ...'); virtual_sites4 funct 1 (removed from GROMACS) is not exercised")
+    else:
+        res.assumptions.append("bounded: virtual_sitesn funct 3 (explicit weights) is not exercised: the topology reader has no representation for weights")
 
 
 # ==========================================================================================
@@ -2159,6 +2428,306 @@ def c11_constraint_graphs(ctx):
     return out
 
 
+# ---- thorough tier: generated force fields --------------------------------------------------------------------------------------------
+
+C11_REAL = ("BB", "S1", "S2", "S3", "S4")
+_P2 = [("BB", "S2"), ("S1", "S3"), ("S2", "S4"), ("BB", "S3"), ("S1", "S4")]
+_P3 = [("BB", "S1", "S2"), ("S1", "S2", "S3"), ("S2", "S3", "S4"), ("BB", "S2", "S4"), ("S1", "BB", "S3")]
+_P4 = [("BB", "S1", "S2", "S3"), ("S1", "S2", "S3", "S4"), ("BB", "S1", "S2", "S4"), ("BB", "S2", "S3", "S4"), ("S1", "BB", "S2", "S4")]
+_P1 = [("BB",), ("S1",), ("S2",), ("S3",), ("S4",)]
+# every interaction section a .ff block can carry that the itp writer emits and polyply's topology reader registers (cmap: K19, kept in block E;
+# [ SETTLE ] is refused by the .ff reader itself, [ settles ] / [ virtual_sites1 ] exist in .itp input only: see C11_ITP_SECTIONS), with GROMACS
+# function types of 1-6 parameters.  'site': number of defining atoms of a virtual-site section (the site itself is a fresh atom V<k>)
+C11_CATALOGUE = {
+    "bonds": dict(tuples=_P2, params=["1 0.31 1000", "2 0.31 1.0e+04", "6 0.31 500", "3 0.31 50.5 2.0", "7 0.5 1000", "1 0.470 3800"]),
+    "constraints": dict(tuples=_P2, params=["1 0.25", "2 0.26", "1 0.3103"]),
+    "angles": dict(tuples=_P3, params=["1 120 50", "2 120.5 50", "10 100 25", "5 120 50 0.5 100", "1 109.47 1e2", "6 100 1 2 3 4 5"]),
+    "dihedrals": dict(tuples=_P4, params=["1 180 5 2", "9 0 1.5 3", "3 1.1 2.2 3.3 4.4 5.5 6.6", "2 10 40", "4 180 5 2", "11 1 2 3 4", "5 1 2 3 4", "1 -60.5 2.25 1"]),
+    "impropers": dict(tuples=_P4, params=["2 35.26 50", "2 -35.26 50", "4 180 5 2", "2 0 100"]),
+    "pairs": dict(tuples=_P2, params=["1", "1 0.3 0.5", "2 1.0 0.1 -0.1 0.3 0.5"]),
+    "pairs_nb": dict(tuples=_P2, params=["1 0.1 -0.1 0.3 1.0", "1 0 0 0.47 3.5"]),
+    "exclusions": dict(tuples=[("BB", "S2"), ("S1", "S3"), ("S2", "S4"), ("BB", "S3", "S4"), ("S1", "S4")], params=[""]),
+    "position_restraints": dict(tuples=_P1, params=["1 1000 1000 1000", "1 500 0 500", "2 0.5 100"]),
+    "distance_restraints": dict(tuples=_P2, params=["1 0 1 0.3 0.4 0.5 1.0", "1 1 2 0.3 0.4 0.5 2.0"]),
+    "dihedral_restraints": dict(tuples=_P4, params=["1 180 0 10", "1 -60 5 1e3"]),
+    "orientation_restraints": dict(tuples=_P2, params=["1 1 1 1.0 5.0 1.0", "2 1 3 2.0 6.0 0.5"]),
+    "angle_restraints": dict(tuples=_P4, params=["1 90 100 1", "1 45 50 2"]),
+    "angle_restraints_z": dict(tuples=_P2, params=["1 90 100 1", "1 30 10 2"]),
+    "virtual_sites2": dict(site=2, params=["1 0.5", "1 0.25", "1 1.3", "2 0.1"]),
+    "virtual_sites3": dict(site=3, params=["1 0.2 0.3", "2 0.4 0.1", "3 120 0.1", "4 0.2 0.3 1.5"]),
+    "virtual_sites4": dict(site=4, params=["2 0.5 0.5 0.1", "2 0.8 1.2 -0.15"]),
+    # virtual_sitesn: parameter = function type, number of defining atoms 1-4
+    "virtual_sitesn": dict(site=None, params=["1/1", "1/2", "1/3", "1/4", "2/1", "2/2", "2/3", "2/4"]),
+}
+# sections that only polyply .itp input can carry (index syntax)
+C11_ITP_SECTIONS = {
+    "virtual_sites1": dict(params=["1"]),
+    "settles": dict(params=["1 0.1 0.16", "1 0.09572 0.15139"]),
+}
+# guards / versions / other meta on several interactions of one section at once; 'same' puts the entries on the SAME atoms (the
+# '#ifdef FLEXIBLE ... #else ...' idiom), told apart by a version as the .ff format requires
+C11_GUARD_PATTERNS = [
+    ("plain", [{}]),
+    ("ifdef", [{"ifdef": "GX"}]),
+    ("ifndef", [{"ifndef": "GX"}]),
+    ("plain+ifdef", [{}, {"ifdef": "GX"}]),
+    ("ifdef+ifndef", [{"ifdef": "GX"}, {"ifndef": "GX"}]),
+    ("plain+ifdef+ifdef2+ifndef", [{}, {"ifdef": "GX"}, {"ifdef": "GY"}, {"ifndef": "GX"}]),
+    ("group/comment/version", [{"group": "grp one", "ifdef": "GX"}, {"comment": "note", "ifndef": "GY"}, {"version": 2}, {"group": "grp one"}]),
+    ("same atoms, ifdef / ifndef", "same"),
+]
+C11_ATOM_STYLES = 4
+
+
+def c11_gen_block(name, entries, style=0, nrexcl=1):
+    """a .ff block: atoms BB S1..S4 bonded in a chain + one virtual atom per virtual-site entry.
+    entries: [(section, atoms, parameter string, meta dict)]; for virtual sites atoms = (site, defining atoms...).
+    style: 0 masses and charges, one charge group; 1 no masses; 2 one charge group per atom, charges with many digits; 3 charge groups in pairs, no charges"""
+    sites = []
+    for sec, atoms, _p, _m in entries:
+        if sec.startswith("virtual_sites") and atoms[0] not in sites:
+            sites.append(atoms[0])
+    lines = ["[ moleculetype ]", f"{name} {nrexcl}", "[ atoms ]"]
+    charges = {0: [0.0, 0.25, -0.25, 0.5, -0.5], 1: [0.0] * 5, 2: [0.123456789, -0.123456789, 1e-3, -1e-3, 0.0], 3: [0.0] * 5}[style]
+    for i, an in enumerate(C11_REAL + tuple(sites), start=1):
+        real = i <= len(C11_REAL)
+        cg = {0: 1, 1: 1, 2: i, 3: (i + 1) // 2}[style]
+        q = charges[i - 1] if real else 0.0
+        atype = "TA" if an == "BB" else ("TB" if real else "TV")
+        mass = "" if style == 1 else (" 36.054" if an == "BB" else (" 72.0" if real else " 0.0"))
+        lines.append(f"{i} {atype} 1 {name} {an} {cg} {q}{mass}")
+    def entry(sec, atoms, params, meta):
+        # 'atoms -- parameters {meta}': the separator is needed where the number of atoms is open (virtual_sitesn, exclusions)
+        sep = " -- " if sec in ("virtual_sitesn", "exclusions") else " "
+        return (" ".join(atoms) + sep + params).rstrip() + (" " + json.dumps(meta) if meta else "")
+    by_section = {"bonds": []}
+    for sec, atoms, params, meta in entries:
+        by_section.setdefault(sec, []).append(entry(sec, atoms, params, meta))
+    lines += ["[ bonds ]"] + [f"{a} {b} 1 0.3 1000" for a, b in zip(C11_REAL, C11_REAL[1:])] + by_section.pop("bonds")
+    for sec, items in by_section.items():
+        lines += [f"[ {sec} ]"] + items
+    return "\n".join(lines) + "\n"
+
+
+def c11_section_entries(section, variant, pattern):
+    """the entries of one sweep block: `pattern` (a list of metas or 'same') over the atom tuples of `section`, parameters cycling from `variant`"""
+    cat = C11_CATALOGUE[section]
+    metas = pattern if pattern != "same" else [{"ifdef": "GX", "version": 1}, {"ifndef": "GX", "version": 2}]
+    entries = []
+    for k, meta in enumerate(metas):
+        params = cat["params"][(variant + k) % len(cat["params"])]
+        slot = 0 if pattern == "same" else k
+        if "site" in cat:
+            ndef = cat["site"]
+            if section == "virtual_sitesn":
+                funct, ndef = params.split("/")
+                params, ndef = funct, int(ndef)
+            start = slot % len(C11_REAL)
+            defining = tuple(C11_REAL[(start + j) % len(C11_REAL)] for j in range(ndef))
+            atoms = (f"V{slot + 1}",) + defining
+        else:
+            atoms = cat["tuples"][slot % len(cat["tuples"])]
+        entries.append((section, atoms, params, dict(meta)))
+    return entries
+
+
+def c11_link_text(kind, names):
+    rn = 'resname "%s"' % "|".join(names)
+    L = lambda section, *lines: "\n".join(["[ link ]", rn, f"[ {section} ]"] + list(lines)) + "\n"     # noqa: E731
+    if kind == "plain":
+        return L("bonds", "BB >BB 1 0.35 1250")
+    if kind == "constraint":
+        return L("constraints", "BB >BB 1 0.35")
+    if kind == "guarded-bond":
+        return L("bonds", 'BB >BB 1 0.35 1250 {"ifdef": "FLEX"}') + L("constraints", 'BB >BB 1 0.35 {"ifndef": "FLEX"}')
+    if kind == "guarded":
+        return (L("bonds", 'BB >BB 1 0.350 1250 {"group": "backbone"}') + L("angles", 'BB >BB >>BB 1 140 30 {"ifdef": "STIFF"}')
+                + L("dihedrals", 'BB >BB >>BB >>>BB 1 180 2.5 1 {"ifndef": "NOTORS"}') + L("constraints", 'S1 >BB 1 0.45 {"ifdef": "BRACE"}'))
+    if kind == "rich":
+        # several sections per junction, versions on the same atoms (multiple dihedral terms), guards on several entries at once
+        return (L("bonds", 'BB >BB 1 0.35 1250 {"group": "backbone", "comment": "junction"}')
+                + L("angles", 'BB >BB >>BB 2 140 30 {"ifdef": "STIFF", "version": 1}') + L("angles", 'BB >BB >>BB 10 150 15 {"ifndef": "STIFF", "version": 2}')
+                + L("angles", 'S1 BB >BB 1 100 20.5')
+                + L("dihedrals", 'BB >BB >>BB >>>BB 9 0 1.5 1 {"version": 1}', 'BB >BB >>BB >>>BB 9 0 0.5 2 {"version": 2}',
+                    'BB >BB >>BB >>>BB 9 180 0.25 3 {"version": 3, "ifdef": "TORS"}')
+                + L("impropers", 'BB S1 >BB >S1 2 0 50 {"ifndef": "NOIMP"}')
+                + L("pairs", 'S1 >S1 1 {"ifdef": "PAIRS"}', 'S1 >S1 1 0.3 0.5 {"ifndef": "PAIRS", "version": 2}')
+                + L("exclusions", 'S1 >BB', 'BB >S1 -- {"ifdef": "EXCL"}')
+                + L("position_restraints", 'BB 1 100 100 100 {"ifdef": "POSRES"}')
+                + L("distance_restraints", 'BB >BB 1 0 1 0.3 0.4 0.5 1.0 {"ifdef": "DISRES"}'))
+    if kind == "partial":     # only the first two names are ever linked: other junctions are missing links
+        return "\n".join(["[ link ]", 'resname "%s"' % "|".join(names[:2]), "[ bonds ]", "BB >BB 1 0.35 1250"]) + "\n"
+    raise KeyError(kind)
+
+
+C11_LINK_KINDS = ("plain", "constraint", "guarded-bond", "guarded", "rich", "partial")
+
+
+def c11_all_shapes(nmax=5):
+    """every connected graph on 1..nmax nodes up to isomorphism (networkx graph atlas): 1, 1, 2, 6, 21 for 1..5 nodes - all trees, all rings,
+    every branched and fused shape"""
+    from networkx.generators.atlas import graph_atlas_g
+    out = []
+    for g in graph_atlas_g():
+        n = g.number_of_nodes()
+        if 1 <= n <= nmax and nx.is_connected(g):
+            out.append((n, tuple(sorted(tuple(sorted(e)) for e in g.edges))))
+    return out
+
+
+def c11_shape_kind(n, edges):
+    m = len(edges)
+    if m == n - 1:
+        deg = max([sum(1 for e in edges if v in e) for v in range(n)] or [0])
+        return "path" if deg <= 2 else "tree"
+    if m == n and all(sum(1 for e in edges if v in e) == 2 for v in range(n)):
+        return "ring"
+    return "cyclic"
+
+
+def c11_itp_block(name, section, params, guard=None):
+    """a block in polyply .itp input syntax (atom indices) with one of the sections only that syntax can carry"""
+    lines = ["[ moleculetype ]", f"{name} 1", "[ atoms ]", f"1 TA 1 {name} BB 1 0.0 36.0", f"2 TB 1 {name} S1 1 0.1 72.0", f"3 TB 1 {name} S2 2 -0.1 72.0",
+             f"4 TV 1 {name} V1 3 0.0 0.0", "[ bonds ]", "1 2 1 0.3 1000", "2 3 1 0.3 1000", f"[ {section} ]"]
+    body = {"virtual_sites1": f"4 1 {params}", "settles": f"1 {params}"}[section]
+    if guard:
+        lines += [f"#{guard[0]} {guard[1]}", body, "#endif"]
+    else:
+        lines.append(body)
+    if section != "virtual_sites1":
+        lines += ["[ virtual_sitesn ]", "4 1 1 2 3"]
+    return "\n".join(lines) + "\n"
+
+
+def c11_slow_template(entries):
+    """gen_coords gives up on a residue template only after 12 rounds of numerical optimisation (minutes on one core) when the targets it optimises cannot be met
+    together: type-2 impropers next to each other, or two entries with different targets on the same atoms (the #ifdef / #ifndef idiom).  For such generated
+    blocks the file is still written, re-read and compared; only the additional gen_coords run is left out (decided from the input, before anything is run)"""
+    seen = set()
+    for sec, atoms, params, _meta in entries:
+        if sec == "impropers" or (sec == "dihedrals" and params.split()[0] == "2"):
+            return True
+        if sec in ("bonds", "constraints", "angles"):
+            if (sec, frozenset(atoms)) in seen:
+                return True
+            seen.add((sec, frozenset(atoms)))
+    return False
+
+
+def c11_thorough_jobs(ctx, d, first_id):
+    """the thorough-only families; every job carries its own input files"""
+    jobs, seen = [], set()
+
+    def add(family, files, graph, focus=None, gen_coords=True, jopts=None, what=""):
+        key = (tuple(files), graph, json.dumps(jopts, sort_keys=True))
+        if key in seen:
+            return
+        seen.add(key)
+        jid = first_id + len(jobs)
+        jobs.append(dict(dir=d, id=jid, links=family, graph=graph, files=files, focus=focus, json=jopts, what=what,
+                         seed=_seed_of("c11", ctx.seed, jid), run_gen_coords=gen_coords, family=family))
+    chain = lambda seq: tuple((i, i + 1) for i in range(len(seq) - 1))       # noqa: E731
+    names_x = ("A", "B", "X")
+    contexts = [("seq", ("X",), ()), ("seq", ("X", "X"), ((0, 1),)), ("seq", ("A", "X", "B"), chain("AXB")),
+                ("json", ("X", "A", "X", "B"), ((0, 1), (0, 2), (2, 3)))]
+    # (S) one section x parameter variant x guard pattern, in four sequence contexts
+    for section, cat in C11_CATALOGUE.items():
+        for variant in range(len(cat["params"])):
+            for gi, (gname, pattern) in enumerate(C11_GUARD_PATTERNS):
+                entries = c11_section_entries(section, variant, pattern)
+                block = c11_gen_block("X", entries, style=(variant + gi) % C11_ATOM_STYLES, nrexcl=1 + (variant + gi) % 3)
+                link = c11_link_text(("plain", "guarded", "rich")[(variant + gi) % 3], names_x)
+                ff = block + C11_BLOCKS["A"] + C11_BLOCKS["B"] + link
+                for graph in contexts:
+                    add("sweep", (("ff.ff", ff),), graph, focus=section, gen_coords=not c11_slow_template(entries), what=f"section {section}, parameters from variant {variant}, guards: {gname}")
+    # (E) edge inputs: one interaction guarded by #ifdef AND #ifndef; virtual_sitesn with explicit weights (funct 3); long chains (two-digit residue ids, 3-digit atom indices)
+    for section, atoms, params in (("bonds", ("BB", "S2"), "1 0.31 1000"), ("angles", ("BB", "S1", "S2"), "1 120 50"), ("position_restraints", ("S1",), "1 500 0 500"),
+                                   ("virtual_sites2", ("V1", "BB", "S1"), "1 0.5")):
+        block = c11_gen_block("X", [(section, atoms, params, {"ifdef": "GX", "ifndef": "GY"})])
+        ff = block + C11_BLOCKS["A"] + C11_BLOCKS["B"] + c11_link_text("plain", names_x)
+        for graph in contexts[:2]:
+            add("edge", (("ff.ff", ff),), graph, focus=section, what=f"section {section}: one entry with both an ifdef and an ifndef guard")
+            jobs[-1]["both_guards"] = True
+    for atoms, weights in ((("V1", "BB", "S1"), "3 1.0 3.0"), (("V1", "BB", "S1", "S2"), "3 1 2 1"), (("V1", "S1", "S2", "S3", "S4"), "3 0.5 0.25 0.125 0.125")):
+        block = c11_gen_block("X", [("virtual_sitesn", atoms, weights, {})])
+        ff = block + C11_BLOCKS["A"] + C11_BLOCKS["B"] + c11_link_text("plain", names_x)
+        for graph in contexts[:2]:
+            add("edge", (("ff.ff", ff),), graph, focus="virtual_sitesn", what=f"virtual_sitesn funct 3 (centre of weights) over {len(atoms) - 1} atoms, weights {weights[2:]}")
+    for seq in ("X" * 10, "AB" * 6, "XAXB" * 5, "B" * 25, "X" * 21):
+        block = c11_gen_block("X", c11_section_entries("angles", 0, C11_GUARD_PATTERNS[5][1]) + c11_section_entries("virtual_sitesn", 2, C11_GUARD_PATTERNS[3][1]), style=2)
+        for lk in ("plain", "rich"):
+            ff = block + C11_BLOCKS["A"] + C11_BLOCKS["B"] + c11_link_text(lk, names_x)
+            add("edge", (("ff.ff", ff),), ("seq", tuple(seq), chain(seq)), gen_coords=len(seq) <= 12, what=f"chain of {len(seq)} residues, links {lk}")
+    # (I) sections only .itp input can carry
+    for section, cat in C11_ITP_SECTIONS.items():
+        for params in cat["params"]:
+            for guard in (None, ("ifdef", "GX"), ("ifndef", "GX")):
+                itp = c11_itp_block("X", section, params, guard)
+                for lk in ("plain", "rich"):
+                    ff = C11_BLOCKS["A"] + C11_BLOCKS["B"] + c11_link_text(lk, names_x)
+                    for graph in contexts:
+                        add("itp-input", (("ff.ff", ff), ("x.itp", itp)), graph, focus=section, what=f".itp input block with [ {section} ] {params}, guard {guard}")
+    # (G) every connected residue graph on 1-5 residues x numberings x residue names x link sets
+    std = "\n".join(C11_BLOCKS[b] for b in "ABCD") + "\n"
+    shapes = c11_all_shapes(5)
+    for si, (n, edges) in enumerate(shapes):
+        rs = np.random.RandomState(_seed_of("c11-shape", ctx.seed, si))
+        numberings = [list(range(n))] + ([list(rs.permutation(n))] if n >= 3 else [])
+        for ni, perm in enumerate(numberings):
+            e2 = tuple(sorted(tuple(sorted((int(perm[a]), int(perm[b])))) for a, b in edges))
+            labellings = [tuple("A" * n), tuple(rs.choice(list("AB"), n)), tuple(rs.choice(list("ABCD"), n)), tuple(rs.choice(list("ABCD"), n))]
+            for li, names in enumerate(labellings):
+                names = tuple(str(x) for x in names)
+                for ki, lk in enumerate(C11_LINK_KINDS):
+                    ff = std + c11_link_text(lk, ("A", "B", "C", "D"))
+                    jopts = [None, {"resid": True}, {"order": 1 + si + li}, {"resid": True, "order": 7 + si}][(si + ni + li + ki) % 4]
+                    add("shapes", (("ff.ff", ff),), ("json", names, e2), jopts=jopts, what=f"{c11_shape_kind(n, edges)} of {n} residues, links {lk}")
+                    if ni == 0 and e2 == chain(names):          # a path numbered along the chain can also be asked for with -seq
+                        add("shapes", (("ff.ff", ff),), ("seq", names, e2), what=f"path of {n} residues through -seq, links {lk}")
+    # (M) multi-block mixes: three generated blocks with several guarded sections each + A, B on seeded-random graphs
+    sections = list(C11_CATALOGUE)
+    metas = [{}, {}, {"ifdef": "GX"}, {"ifndef": "GX"}, {"ifdef": "GY"}, {"ifndef": "GY"}, {"group": "g"}, {"ifdef": "GX", "group": "g"}, {"comment": "c", "ifndef": "GY"}]
+    nmix = 1000
+    for mi in range(nmix):
+        rs = np.random.RandomState(_seed_of("c11-mix", ctx.seed, mi))
+        blocks, slow = [], False
+        for bname in "PQR":
+            entries, used, nsite = [], set(), 0
+            for _ in range(int(rs.randint(2, 7))):
+                section = sections[int(rs.randint(len(sections)))]
+                cat = C11_CATALOGUE[section]
+                params = cat["params"][int(rs.randint(len(cat["params"])))]
+                meta = dict(metas[int(rs.randint(len(metas)))])
+                if "site" in cat:
+                    ndef = cat["site"]
+                    if section == "virtual_sitesn":
+                        params, ndef = params.split("/")
+                        ndef = int(ndef)
+                    if nsite >= 3:
+                        continue
+                    nsite += 1
+                    start = int(rs.randint(len(C11_REAL)))
+                    atoms = (f"V{nsite}",) + tuple(C11_REAL[(start + j) % len(C11_REAL)] for j in range(ndef))
+                else:
+                    atoms = cat["tuples"][int(rs.randint(len(cat["tuples"])))]
+                    if (section, frozenset(atoms)) in used:
+                        meta["version"] = len(used) + 1
+                    used.add((section, frozenset(atoms)))
+                entries.append((section, atoms, params, meta))
+            blocks.append(c11_gen_block(bname, entries, style=int(rs.randint(C11_ATOM_STYLES)), nrexcl=int(rs.randint(1, 4))))
+            slow = slow or c11_slow_template(entries)
+        n, edges = shapes[int(rs.randint(len(shapes)))]
+        perm = rs.permutation(n)
+        e2 = tuple(sorted(tuple(sorted((int(perm[a]), int(perm[b])))) for a, b in edges))
+        names = tuple(str(x) for x in rs.choice(list("PQRAB"), n, p=[0.25, 0.25, 0.25, 0.125, 0.125]))
+        lk = C11_LINK_KINDS[int(rs.randint(len(C11_LINK_KINDS)))]
+        ff = "".join(blocks) + C11_BLOCKS["A"] + C11_BLOCKS["B"] + c11_link_text(lk, ("P", "Q", "R", "A", "B"))
+        kind = "seq" if (e2 == chain(names) and rs.rand() < 0.5) else "json"
+        jopts = None if kind == "seq" else [None, {"resid": True}, {"order": 1 + mi}][int(rs.randint(3))]
+        add("mix", (("ff.ff", ff),), (kind, names, e2), jopts=jopts, gen_coords=not slow, what=f"random blocks P, Q, R + A, B; {c11_shape_kind(n, edges)} of {n} residues, links {lk}")
+    return jobs
+
+
 def c11_norm_param(p):
     try:
         return round(float(p), 9)
@@ -2217,7 +2786,9 @@ def c11_world(job):
     os.makedirs(wd, exist_ok=True)
     try:
         kind, resnames, edges = job["graph"]
-        ff = _write(os.path.join(wd, "ff.ff"), "\n".join(C11_BLOCKS[b] for b in ("A", "B", "C", "D", "E")) + "\n" + C11_LINKS[job["links"]])
+        # thorough families bring their own input files [(file name, text)]; the quick worlds use the fixed blocks A-E + a named link set
+        files = job.get("files") or [("ff.ff", "\n".join(C11_BLOCKS[b] for b in ("A", "B", "C", "D", "E")) + "\n" + C11_LINKS[job["links"]])]
+        inpath = [Path(_write(os.path.join(wd, fname), text)) for fname, text in files]
         out = Path(os.path.join(wd, "out.itp"))
         kw = {}
         if kind == "seq":
@@ -2232,13 +2803,26 @@ def c11_world(job):
         else:
             data = {"directed": False, "multigraph": False, "graph": {}, "nodes": [{"id": i, "resname": rn} for i, rn in enumerate(resnames)],
                     "edges": [{"source": a, "target": b} for a, b in edges]}
+            jopts = job.get("json") or {}
+            if jopts.get("resid"):                      # residue ids spelled out in the file (the same ids a file without them stands for)
+                for nd in data["nodes"]:
+                    nd["resid"] = nd["id"] + 1
+            if jopts.get("order"):                      # nodes / edges listed in another order, edges written target-first
+                rs = np.random.RandomState(jopts["order"])
+                data["nodes"] = [data["nodes"][i] for i in rs.permutation(len(data["nodes"]))]
+                data["edges"] = [data["edges"][i] for i in rs.permutation(len(data["edges"]))]
+                data["edges"] = [{"source": e["target"], "target": e["source"]} if rs.rand() < 0.5 else e for e in data["edges"]]
             kw["seq_file"] = Path(_write(os.path.join(wd, "seq.json"), json.dumps(data)))
         try:
-            gi.gen_params(name="poly", outpath=out, inpath=[Path(ff)], **kw)
+            gi.gen_params(name="poly", outpath=out, inpath=inpath, **kw)
         except Exception as e:      # noqa: BLE001
             import traceback
             tb = traceback.extract_tb(e.__traceback__)[-1]
-            return True, [("c11-gen-params-exception:" + type(e).__name__, f"gen_params: {type(e).__name__}: {e} at {os.path.basename(tb.filename)}:{tb.lineno}")]
+            key = "c11-gen-params-exception:" + type(e).__name__
+            if job.get("both_guards") and not out.exists():
+                # an interaction that is active under '#ifdef P' AND '#ifndef Q' passed mapping and link application; the statement wants the file written
+                key = "c11-ifdef-and-ifndef-not-written"
+            return True, [(key, f"gen_params: {type(e).__name__}: {e} at {os.path.basename(tb.filename)}:{tb.lineno}")]
         if not out.exists():
             return True, [("c11-file-not-written", "gen_params returned but the output file does not exist")]
         if len(captured) != 1:
@@ -2253,6 +2837,12 @@ def c11_world(job):
             if has_cmap and "cmap" in str(e):
                 return True, [("c11-cmap-section-not-readable", f"gen_params wrote a [ cmap ] section ({sum(1 for x in inter_b if x[0] == 'cmap')} entries); "
                                                                f"reading the file back: {type(e).__name__}: {e}")]
+            weighted = [x for x in inter_b if x[0] == "virtual_sitesn" and len(x[2]) > 1]
+            if weighted and "virtual_sitesn" in str(e):
+                with open(out) as fh:
+                    written = [ln.rstrip() for ln in fh.read().split("[ virtual_sitesn ]")[-1].splitlines() if ln.strip()][:2]
+                return True, [("c11-vsn-weights-not-readable", f"the built molecule has {len(weighted)} virtual_sitesn construction(s) with weights (funct 3), e.g. {weighted[0]}; "
+                                                              f"gen_params wrote {written}; reading the file back: {type(e).__name__}: {e}")]
             raise
         if len(top.molecules) != 1:
             return True, [("c11-reread", f"{len(top.molecules)} molecules read back")]
@@ -2270,6 +2860,8 @@ def c11_world(job):
                 only_b = [(x, cb[x], cr[x]) for x in cb if cb[x] != cr[x]][:4]
             guard_only = bool(only_b) and all(any(y[:3] == x[:3] for y in inter_r) for x in only_b if len(x) == 4)
             key = "c11-guards-differ" if guard_only else "c11-interactions-differ"
+            if only_b and all(len(x) == 4 and x[0] == "virtual_sitesn" and len(x[2]) > 1 for x in only_b):
+                key = "c11-vsn-weights-not-readable"        # funct 3: the weights are written between function type and atoms and come back as atom indices
             bads.append((key, f"interactions only in the built molecule {only_b}; only in the file {only_r}"))
         # residue graph
         want = nx.Graph()
@@ -2304,10 +2896,16 @@ def c11_world(job):
                 except Exception as e:      # noqa: BLE001
                     import traceback
                     tb = traceback.extract_tb(e.__traceback__)[-1]
-                    bads.append(("c11-gen-coords-rejects:" + type(e).__name__, f"gen_coords on the generated file: {type(e).__name__}: {e} at {os.path.basename(tb.filename)}:{tb.lineno}"))
+                    key = "c11-gen-coords-rejects:" + type(e).__name__
+                    if isinstance(e, KeyError) and "virtual_sites" in str(e):
+                        key = "c11-gen-coords-virtual-site-kind-unsupported"       # (section, function type) the template builder has no construction for
+                    bads.append((key, f"gen_coords on the generated file: {type(e).__name__}: {e} at {os.path.basename(tb.filename)}:{tb.lineno}"))
         nontrivial = len(resnames) >= 2
+        if job.get("focus"):            # section sweeps: a one-residue world counts when the section under test reached the built molecule
+            focus = "dihedrals" if job["focus"] == "impropers" else job["focus"]
+            nontrivial = nontrivial or any(x[0] == focus for x in inter_b)
         return nontrivial, bads, {"missing_links": len(missing), "atoms": len(atoms_b), "interactions": len(inter_b),
-                                  "guarded": sum(1 for x in inter_b if x[3])}
+                                  "guarded": sum(1 for x in inter_b if x[3]), "sections": sorted({x[0] for x in inter_b})}
     except Exception as e:      # noqa: BLE001
         import traceback
         tb = traceback.extract_tb(e.__traceback__)[-1]
@@ -2315,6 +2913,44 @@ def c11_world(job):
         return True, bads
     finally:
         cls.run_molecule = orig
+        c11_forget_deferred_files()
+
+
+def c11_forget_deferred_files():
+    """gen_params writes through vermouth's process-wide DeferredFileWriter; when it raises between opening and writing, the pending temporary
+    file stays registered and the NEXT gen_params call of the same process would move it.  Every world stands for one program run, so pending
+    files of a failed world are dropped (harness isolation; nothing is pending after a successful run)"""
+    try:
+        from vermouth.file_writer import DeferredFileWriter
+        pending = DeferredFileWriter().open_files
+        while pending:
+            tmp_path = pending.popleft()[0]
+            try:
+                os.remove(tmp_path)
+            except OSError:
+                pass
+    except Exception:       # noqa: BLE001
+        pass
+
+
+def c11_thorough_bound_text(n, families, sections_seen):
+    nsec = sum(len(c["params"]) for c in C11_CATALOGUE.values())
+    fam = "; ".join(f"{k}: {v['worlds']} worlds ({v['complete']} without a missing link, {v['guarded']} with guarded interactions)" for k, v in families.items())
+    return (f".  THOROUGH adds {n} distinct worlds with generated input files.  SWEEP (exhaustive): a 5-atom block X with one of {len(C11_CATALOGUE)} .ff sections "
+            f"({', '.join(C11_CATALOGUE)}) in each of its function-type / parameter-count variants ({nsec} in all; virtual_sitesn funct 1-2 with 1-4 defining atoms) x "
+            f"{len(C11_GUARD_PATTERNS)} guard patterns over up to 4 entries of the section at once (none, #ifdef, #ifndef, mixed, two tags, group / comment / version meta, "
+            f"#ifdef and #ifndef entry on the same atoms) x {C11_ATOM_STYLES} atom styles (masses absent, charge groups 1 / per atom / in pairs, 9-digit charges) and nrexcl 1-3 "
+            "x 4 sequences (X; X:2; A X B via -seq; branched X(A)(X-B) via .json) with plain / guarded / rich links.  EDGE: one entry guarded by #ifdef AND #ifndef "
+            "(4 sections), virtual_sitesn funct 3 with 2-4 weights, chains of 10-25 residues (two-digit residue ids, 3-digit atom indices).  ITP-INPUT: blocks in polyply .itp syntax with "
+            "[ virtual_sites1 ] and [ settles ] (only that syntax carries them), unguarded / #ifdef / #ifndef.  SHAPES (exhaustive): every connected graph on 1-5 residues "
+            "(31: all trees, rings 3-5, every branched / fused shape) x atlas numbering and a seeded renumbering x 4 residue-name labellings (all A; seeded over A,B; 2 x seeded over A-D) "
+            f"x {len(C11_LINK_KINDS)} link sets ({', '.join(C11_LINK_KINDS)}; 'rich' = bond + 3 angles (2 versions) + 3 dihedral terms on the same atoms (versions) + improper + pairs + "
+            "exclusions + position / distance restraints, guards on 8 of them) through .json (residue ids implicit / spelled out, nodes and edges in file order / shuffled) and, for "
+            f"paths, also -seq.  MIX (seeded): {families.get('mix', {}).get('worlds', 0)} force fields of three generated blocks P, Q, R (2-6 random entries from the catalogue each, "
+            "random guards / groups / comments / versions, up to 3 virtual sites) + A, B on a random shape with random residue names, link set and sequence input"
+            ".  gen_coords is run on every file without a missing link except where a generated block has type-2 improper targets or two different targets on the same atoms "
+            "(its template optimiser gives up only after 12 rounds, minutes per world) and for chains of more than 12 residues"
+            f".  Sections seen in built molecules: {', '.join(sorted(sections_seen))}.  Per family - {fam}")
 
 
 def run_c11(ctx, res):
@@ -2325,27 +2961,43 @@ def run_c11(ctx, res):
             graphs = c11_constraint_graphs(ctx) if links.startswith("constraint-") else c11_graphs(ctx)
             for graph in graphs:
                 jobs.append(dict(dir=d, id=len(jobs), links=links, graph=graph, seed=_seed_of("c11", ctx.seed, len(jobs)), run_gen_coords=True))
-        out = _pool_map(c11_world, jobs, chunksize=1)
+        nfixed = len(jobs)
+        if ctx.thorough:
+            jobs += c11_thorough_jobs(ctx, d, first_id=len(jobs))
+        out = _pool_map(c11_world, jobs, chunksize=1 if not ctx.thorough else 8)
     finally:
         shutil.rmtree(d, ignore_errors=True)
     classes, stats = {}, {"missing_links": 0, "atoms": 0, "interactions": 0, "guarded": 0, "complete": 0}
+    families, sections_seen, smallest = {}, set(), {}
     for job, result in zip(jobs, out):
         nt, bads = result[0], result[1]
         res.evaluations += 1
         res.nontrivial += int(bool(nt))
+        fam = families.setdefault(job.get("family", "fixed"), {"worlds": 0, "complete": 0, "guarded": 0})
+        fam["worlds"] += 1
         if len(result) > 2:
             for k in ("atoms", "interactions", "guarded"):
                 stats[k] += result[2][k]
             stats["missing_links"] += int(result[2]["missing_links"] > 0)
             stats["complete"] += int(result[2]["missing_links"] == 0)
+            fam["complete"] += int(result[2]["missing_links"] == 0)
+            fam["guarded"] += int(result[2]["guarded"] > 0)
+            sections_seen |= set(result[2].get("sections", ()))
         desc = {"links": job["links"], "force_field": "blocks A-E + links '" + job["links"] + "'", "sequence_kind": job["graph"][0],
                 "residues": list(job["graph"][1]), "edges": [list(e) for e in job["graph"][2]]}
+        if job.get("files"):
+            desc.update({"force_field": job["what"], "input_files": {fname: text for fname, text in job["files"]}, "json_options": job.get("json")})
         if not bads and nt and len(res.samples) < 3 and job["links"] == "guarded" and len(job["graph"][1]) >= 4:
             res.samples.append(desc)
         for bad in bads:
             classes[bad[0]] = classes.get(bad[0], 0) + 1
-            if len(res.violations) < 25 and bad[0] not in {v.finding_key for v in res.violations}:
+            if ctx.thorough:        # one Violation per class: the smallest violating input of the class
+                size = (len(desc["residues"]), sum(len(x) for x in desc.get("input_files", {}).values()))
+                if bad[0] not in smallest or size < smallest[bad[0]][0]:
+                    smallest[bad[0]] = (size, Violation("c11-itp-roundtrip", _short(f"{bad[1]}  [{json.dumps(desc)}]", 900), inputs=desc, detail=bad[1], replayed=True, finding_key=bad[0]))
+            elif len(res.violations) < 25 and bad[0] not in {v.finding_key for v in res.violations}:
                 res.violations.append(Violation("c11-itp-roundtrip", _short(f"{bad[1]}  [{json.dumps(desc)}]", 900), inputs=desc, detail=bad[1], replayed=True, finding_key=bad[0]))
+    res.violations += [v for _size, v in smallest.values()][:25]
     res.bound = (f"{len(jobs)} worlds = {len(C11_LINKS)} force fields: 5 blocks of 2-6 atoms covering every moleculetype section the topology reader registers and the writer emits "
                  "(bonds, constraints, angles, proper/improper dihedrals, exclusions, pairs, pairs_nb, virtual_sites2/3/4/n, position_, distance_, dihedral_, orientation_, angle_ and "
                  "angle_z restraints, cmap), #ifdef- and #ifndef-guarded entries in most of them, masses present and absent, nrexcl 1-3; link sets: plain, guarded angles/dihedrals/constraints, "
@@ -2353,9 +3005,12 @@ def run_c11(ctx, res):
                  "x residue graphs (chains of 1-6 via -seq, branched graphs of 3-5 via a .json sequence file; constraint-only junction first / middle / last / repeated / absent): "
                  f"gen_params -> file -> Topology.from_gmx_topfile; {stats['atoms']} atoms and {stats['interactions']} interactions compared ({stats['guarded']} guarded); "
                  f"{stats['complete']} worlds without a missing link (residue graph compared, gen_coords run on the file), {stats['missing_links']} with missing links"
+                 + (c11_thorough_bound_text(len(jobs) - nfixed, families, sections_seen) if ctx.thorough else "")
                  + (f".  Violation classes seen (worlds): {classes}" if classes else ""))
     res.rule = ("the built molecule is captured by a pass-through wrapper around ApplyModifications.run_molecule inside gen_params; atoms compared in index order, interactions as a multiset of "
-                "(section, atoms, parameters numerically, guard); non-trivial iff >= 2 residues")
+                "(section, atoms, parameters numerically, guard); non-trivial iff >= 2 residues"
+                + (" or, in a one-residue section-sweep world, the section under test is present in the built molecule; generated worlds are de-duplicated on (input files, residue graph, "
+                   "sequence-file options) before they are run" if ctx.thorough else ""))
     res.exhaustive = True
     res.assumptions.append("bounded: vermouth's itp writer/reader are exercised, not proved; a link counts as missing iff a requested edge has no bond or constraint between its residues")
 
